@@ -506,7 +506,10 @@ def gen_patch(rng, model, params, world_labels, ids, allow_cf=True, in_data=Fals
                         it["t"] = rng.choice(pool)
             lines.append(it)
         else:
-            if world_labels["all"] and isa == "x64":
+            if world_labels["all"] and isa == "arm64":
+                # a relocation modifier, with and without an addend
+                lines.append({"v": "addlo", "t": rng.choice(world_labels["all"]), "a": rng.choice([0, 0, 8, 16, 24])})
+            elif world_labels["all"] and isa == "x64":
                 if rng.random() < 0.3:
                     lines.append({"v": "cmpmi", "t": rng.choice(world_labels["all"]), "imm": rng.randint(1, 100)})
                 else:
